@@ -70,8 +70,13 @@ fn own_text_range() -> (usize, usize) {
 }
 
 #[cfg(target_arch = "x86_64")]
-extern "C" fn on_trap(_sig: libc::c_int, _info: *mut libc::siginfo_t, ctx: *mut libc::c_void) {
+extern "C" fn on_trap(_sig: libc::c_int, info: *mut libc::siginfo_t, ctx: *mut libc::c_void) {
     unsafe {
+        if !info.is_null() && (*info).si_code == 6 {
+            // TRAP_PERF: the hardware breakpoint of this thread
+            on_break_hit();
+            return;
+        }
         let uc = ctx as *mut libc::ucontext_t;
         let gregs = &mut (*uc).uc_mcontext.gregs;
         const TF: i64 = 0x100;
@@ -90,6 +95,17 @@ extern "C" fn on_trap(_sig: libc::c_int, _info: *mut libc::siginfo_t, ctx: *mut 
                 c.set(c.get() + 1);
                 c.get()
             });
+            let tp = TRACE_PTR.with(|p| p.get());
+            if !tp.is_null() {
+                // trace mode: record, never preempt
+                if c <= TRACE_CAP.with(|x| x.get()) {
+                    *tp.add(c as usize - 1) = (rip - TEXT_LO.load(Ordering::Relaxed)) as u32;
+                } else {
+                    gregs[libc::REG_EFL as usize] &= !TF;
+                    ARMED.with(|a| a.set(false));
+                }
+                return;
+            }
             if c >= BUDGET.with(|b| b.get()) {
                 gregs[libc::REG_EFL as usize] &= !TF;
                 ARMED.with(|a| a.set(false));
@@ -174,4 +190,109 @@ pub fn disarm() -> bool {
         STEPS_COUNTED.fetch_add(COUNT.with(|c| c.get()) as u64, Ordering::Relaxed);
     }
     was
+}
+
+// ---------------------------------------------------------------------------------------
+// Trace mode and breakpoint mode.
+//
+// Reaching the k-th instruction after a visit by single-stepping costs k traps, so sweeping every k of a stretch of d
+// instructions costs d²/2: affordable for a few dozen instructions, not for the thousands that lie between two hooks.
+// The sweep therefore single-steps each stretch ONCE, recording the address (as an offset into this executable's
+// text, which is the same in every process) of every instruction arrived at; for each position k it then starts a
+// fresh run in which a hardware execution breakpoint (a debug register, programmed for the calling thread through
+// perf_event_open with sigtrap=1) is set on the k-th address with a sample period equal to the number of times that
+// address occurs among the first k: the processor stops the thread just before it executes that instruction for that
+// time, at the cost of ONE trap. The handler then parks the client exactly as in single-step mode.
+// ---------------------------------------------------------------------------------------
+
+thread_local! {
+    static TRACE_PTR: Cell<*mut u32> = const { Cell::new(std::ptr::null_mut()) };
+    static TRACE_CAP: Cell<u32> = const { Cell::new(0) };
+    static BREAK_FD: Cell<i32> = const { Cell::new(-1) };
+}
+
+pub static TRACES_RECORDED: AtomicU64 = AtomicU64::new(0);
+pub static BREAKPOINTS_SET: AtomicU64 = AtomicU64::new(0);
+pub static BREAKPOINTS_HIT: AtomicU64 = AtomicU64::new(0);
+pub static BREAKPOINTS_REFUSED: AtomicU64 = AtomicU64::new(0);
+
+/// Starts single-stepping in trace mode: up to `buf.capacity()` arrivals at instructions of this executable are
+/// recorded into `buf` (as text offsets) and nothing is preempted. `buf` must stay alive and untouched until
+/// `end_trace`. Must be the last thing the caller does before it returns into the code under test.
+#[inline(always)]
+pub fn arm_trace(buf: &mut Vec<u32>) {
+    buf.clear();
+    TRACE_PTR.with(|p| p.set(buf.as_mut_ptr()));
+    TRACE_CAP.with(|c| c.set(buf.capacity() as u32));
+    arm(buf.capacity() as u32 + 1);
+}
+
+/// Ends trace mode (after `disarm`): sets the length of `buf` to the number of arrivals recorded.
+pub fn end_trace(buf: &mut Vec<u32>) {
+    let n = COUNT.with(|c| c.get()).min(TRACE_CAP.with(|c| c.get()));
+    TRACE_PTR.with(|p| p.set(std::ptr::null_mut()));
+    TRACE_CAP.with(|c| c.set(0));
+    unsafe { buf.set_len(n as usize) };
+    TRACES_RECORDED.fetch_add(1, Ordering::Relaxed);
+}
+
+pub fn tracing() -> bool {
+    !TRACE_PTR.with(|p| p.get()).is_null()
+}
+
+/// Programs a hardware execution breakpoint for the calling thread at text offset `offset`, to fire on its
+/// `occurrence`-th execution from now. Returns false if the kernel refuses (no debug register free, no permission).
+pub fn arm_break(offset: u32, occurrence: u32) -> bool {
+    let addr = TEXT_LO.load(Ordering::Relaxed) as u64 + offset as u64;
+    let mut attr = [0u8; 128];
+    attr[0..4].copy_from_slice(&5u32.to_le_bytes()); // PERF_TYPE_BREAKPOINT
+    attr[4..8].copy_from_slice(&128u32.to_le_bytes()); // size
+    attr[16..24].copy_from_slice(&(occurrence.max(1) as u64).to_le_bytes()); // sample_period
+    let flags: u64 = 0x20 | 0x40 | 0x10_0000_0000 | 0x20_0000_0000; // exclude_kernel, exclude_hv, remove_on_exec, sigtrap
+    attr[40..48].copy_from_slice(&flags.to_le_bytes());
+    attr[52..56].copy_from_slice(&4u32.to_le_bytes()); // HW_BREAKPOINT_X
+    attr[56..64].copy_from_slice(&addr.to_le_bytes());
+    attr[64..72].copy_from_slice(&8u64.to_le_bytes()); // sizeof(long)
+    let fd = unsafe { libc::syscall(libc::SYS_perf_event_open, attr.as_ptr(), 0, -1, -1, 8u64 /* PERF_FLAG_FD_CLOEXEC */) } as i32;
+    if fd < 0 {
+        BREAKPOINTS_REFUSED.fetch_add(1, Ordering::Relaxed);
+        return false;
+    }
+    BREAK_FD.with(|f| f.set(fd));
+    BREAKPOINTS_SET.fetch_add(1, Ordering::Relaxed);
+    true
+}
+
+/// Removes the calling thread's breakpoint, if any. Returns true iff one was still set (it had not fired).
+pub fn disarm_break() -> bool {
+    let fd = BREAK_FD.with(|f| f.replace(-1));
+    if fd >= 0 {
+        unsafe { libc::close(fd) };
+        true
+    } else {
+        false
+    }
+}
+
+/// Called by the SIGTRAP handler for a perf breakpoint hit on this thread.
+fn on_break_hit() {
+    let fd = BREAK_FD.with(|f| f.replace(-1));
+    if fd < 0 {
+        return;
+    }
+    unsafe {
+        libc::ioctl(fd, 0x2401, 0); // PERF_EVENT_IOC_DISABLE
+        libc::close(fd);
+    }
+    BREAKPOINTS_HIT.fetch_add(1, Ordering::Relaxed);
+    FIRED_BY_COUNT.fetch_add(1, Ordering::Relaxed);
+    let f = ON_FIRE.load(Ordering::Relaxed);
+    if f != 0 {
+        unsafe {
+            let errno = *libc::__errno_location();
+            let f: fn() = std::mem::transmute(f);
+            f();
+            *libc::__errno_location() = errno;
+        }
+    }
 }
